@@ -1,7 +1,7 @@
 (* C01 - Requests reach only upstreams of the addressed endpoint, from any node. *)
 From Coq Require Import List String Ascii NArith ZArith Bool.
 From Piko Require Import Base.Maps Base.Strs Proxy.Endpoint Proxy.Http Proxy.Route ProxyP.Final.
-From Piko Require Upstream.Manager Compose.EndToEnd Compose.Settled.
+From Piko Require Upstream.Manager Compose.EndToEnd Compose.Settled Compose.Example.
 Import ListNotations.
 Open Scope string_scope. Open Scope list_scope.
 
@@ -72,6 +72,24 @@ Theorem C01_end_to_end :
      r = fin (Status 502) [EInvoke entry]).
 Proof. exact Compose.Settled.end_to_end. Qed.
 
+(* the hypotheses are satisfiable (Compose/Example.v): a two-node cluster whose sites are built by RUNNING the component
+   models - manager histories (two upstreams for "e" on b, one for "f" connected and disconnected again), the gossip
+   receiver applying the peer's full delta, the watcher fold, the syncer - is glued and converged, hence settled; and
+   the computed proxy run does what C01_end_to_end says: "e" entering at a is served by an upstream on b, "f" gets 502 *)
+Example C01_end_to_end_example :
+  (forall a, In a Compose.Example.ex_sites -> Compose.Settled.glued Compose.Example.ex_addr_of a) /\
+  (forall a, In a Compose.Example.ex_sites -> Compose.Settled.converged Compose.Example.ex_sites a) /\
+  NoDup (map Compose.Settled.st_id Compose.Example.ex_sites) /\
+  settled (map Compose.Settled.pnode_of Compose.Example.ex_sites) /\
+  (exists rs, res_out (deliver (map Compose.Settled.pnode_of Compose.Example.ex_sites) Compose.Example.ex_env 0
+                               (Compose.Example.ex_rq "e.example.com")) = Served 1 (mkU "u1" "e" (UAnswer 0)) rs) /\
+  res_out (deliver (map Compose.Settled.pnode_of Compose.Example.ex_sites) Compose.Example.ex_env 0
+                   (Compose.Example.ex_rq "f.example.com")) = Status 502.
+Proof.
+  destruct Compose.Example.example_hypotheses as [H1 [H2 H3]]. destruct Compose.Example.example_runs as [R1 [R2 _]].
+  split; [exact H1|]. split; [exact H2|]. split; [exact H3|]. split; [exact Compose.Example.example_settled|]. split; [exact R1|exact R2].
+Qed.
+
 (* the same for the TCP route /_piko/v1/tcp/:id : the endpoint is the path parameter, whatever Host and
    x-piko-endpoint say *)
 Theorem C01_tcp_route :
@@ -112,3 +130,4 @@ Print Assumptions C01_tcp_route.
 Print Assumptions C01_refuted_pinned.
 Print Assumptions C01_settled_from_convergence.
 Print Assumptions C01_end_to_end.
+Print Assumptions C01_end_to_end_example.
